@@ -33,6 +33,9 @@ type Job struct {
 	// HangSeconds: a case running longer than this is killed and re-run alone
 	HangSeconds int
 	Args        []string
+	// GC: "" = collector off below a 512 MiB soft limit (deterministic runs for
+	// harnesses that do not look for memory-safety defects); "on" = default GC.
+	GC string
 }
 
 // Spec describes a property check.
@@ -293,7 +296,19 @@ func (e *Env) runOnce(bin string, job Job, prop string, shard int, from int64, s
 	}
 	args = append(args, job.Args...)
 	cmd := exec.Command(bin, args...)
+	if job.Mode != "race" {
+		// address-space limit: a runaway allocation dies at once with "out of memory"
+		lim := job.MaxRSS
+		if lim == 0 {
+			lim = 4096
+		}
+		sh := fmt.Sprintf("ulimit -v %d; exec \"$0\" \"$@\"", lim*1024)
+		cmd = exec.Command("sh", append([]string{"-c", sh, bin}, args...)...)
+	}
 	cmd.Env = append(os.Environ(), "GOMAXPROCS=1", "GOTRACEBACK=single")
+	if job.GC == "" {
+		cmd.Env = append(cmd.Env, "GOGC=off", "GOMEMLIMIT=512MiB")
+	}
 	if job.Mode == "race" {
 		cmd.Env = append(cmd.Env, "GORACE=halt_on_error=0")
 	}
@@ -318,7 +333,7 @@ func (e *Env) runOnce(bin string, job Job, prop string, shard int, from int64, s
 	}
 	var lastIdx int64 = -2
 	lastChange := time.Now()
-	tick := time.NewTicker(500 * time.Millisecond)
+	tick := time.NewTicker(200 * time.Millisecond)
 	defer tick.Stop()
 	var werr error
 loop:
